@@ -46,13 +46,16 @@ def stdIPNotion : IPNotion where
 theorem dropDot_cons_dot (t : Bytes) : dropDot (dot :: t) = t := by simp [dropDot]
 
 /-- **the implemented domain match implies the RFC 6265 one** -/
+theorem isHDN_ne_nil {t : Bytes} (h : isHDN t = true) : t ≠ [] := by
+  intro e; subst e; simp [isHDN, ipv4re, ipv4reRev] at h
+
 theorem implDomainMatch_sound (ip : IPNotion) (a b : Bytes) (h : implDomainMatch a b = true) :
     domainMatch6265 ip.isIP a b = true := by
   unfold implDomainMatch at h
   unfold domainMatch6265
   generalize asciiLower a = A at *
   generalize asciiLower b = B at *
-  simp only [Bool.or_eq_true, decide_eq_true_eq, Bool.and_eq_true, Bool.not_eq_true']
+  simp only [Bool.or_eq_true, decide_eq_true_eq]
   by_cases h1 : (B.isSuffixOf A && cjMatch A B) = true
   · simp only [Bool.and_eq_true] at h1
     obtain ⟨hsuf, hcj⟩ := h1
@@ -66,10 +69,13 @@ theorem implDomainMatch_sound (ip : IPNotion) (a b : Bytes) (h : implDomainMatch
         · subst hc
           right
           rw [dropDot_cons_dot]
-          refine ⟨List.isSuffixOf_iff_suffix.mpr (List.suffix_refl _), ?_⟩
-          cases hip : ip.isIP (dot :: t) with
-          | false => rfl
-          | true => exact absurd (by simp) (ip.no_leading_dot _ hip)
+          by_cases ht : t = []
+          · simp [ht]
+          · simp only [ht, if_false, Bool.and_eq_true, Bool.not_eq_true']
+            refine ⟨List.isSuffixOf_iff_suffix.mpr (List.suffix_refl _), ?_⟩
+            cases hip : ip.isIP (dot :: t) with
+            | false => rfl
+            | true => exact absurd (by simp) (ip.no_leading_dot _ hip)
         · left; simp [dropDot, hc]
     · simp only [hAB, if_false] at hcj
       split at hcj
@@ -87,6 +93,8 @@ theorem implDomainMatch_sound (ip : IPNotion) (a b : Bytes) (h : implDomainMatch
               simp at hhead; subst hhead
               right
               rw [dropDot_cons_dot]
+              have ht : t ≠ [] := isHDN_ne_nil (by simpa using hcj)
+              simp only [ht, if_false, Bool.and_eq_true, Bool.not_eq_true']
               refine ⟨hsuf, ?_⟩
               cases hip : ip.isIP A with
               | false => rfl
